@@ -3,8 +3,12 @@
 package main
 
 import (
+	"bytes"
 	"fmt"
+	"log"
 	"net"
+	"strings"
+	"sync"
 	"time"
 
 	"raven/internal/delivery/lmtp"
@@ -41,7 +45,42 @@ func c12Serve(w *World, name string, run func(net.Conn)) *Client {
 	return cl
 }
 
+// lockedBuf collects what raven writes through the standard logger, so that
+// a panic that a connection goroutine recovered from (and logged) is still
+// an observation of the scenario.
+type lockedBuf struct {
+	mu sync.Mutex
+	b  bytes.Buffer
+}
+
+func (l *lockedBuf) Write(p []byte) (int, error) {
+	l.mu.Lock()
+	defer l.mu.Unlock()
+	return l.b.Write(p)
+}
+
+var c12Log lockedBuf
+
 func init() {
+	// log_capture: route the standard logger into a buffer (main() discards it otherwise)
+	register("log_capture", func(w *World, op Op) Obs {
+		log.SetOutput(&c12Log)
+		return Obs{"ok": true}
+	})
+	// log_panics: the captured log lines that mention a panic; clears the buffer
+	register("log_panics", func(w *World, op Op) Obs {
+		c12Log.mu.Lock()
+		txt := c12Log.b.String()
+		c12Log.b.Reset()
+		c12Log.mu.Unlock()
+		out := []string{}
+		for _, l := range strings.Split(txt, "\n") {
+			if strings.Contains(strings.ToLower(l), "panic") {
+				out = append(out, b2s([]byte(l)))
+			}
+		}
+		return Obs{"lines": out}
+	})
 	// sasl_open: {"op":"sasl_open","conn":"s1"} (the SASL protocol has no greeting)
 	register("sasl_open", func(w *World, op Op) Obs {
 		srv := sasl.NewServer("", "", w.auth.url(), "example.com")
